@@ -2,7 +2,7 @@
     Only theorem statements; proofs are [exact] of lemmas from Proofs/. *)
 From Coq Require Import List ZArith NArith Bool.
 From HK Require Import Model.Queue Model.QueueMon Proofs.QueueBase Proofs.QueueInv Proofs.QueueInvStep
-  Proofs.QueueStep Proofs.QueueLease Proofs.QueueTrace Proofs.QueueEpochs.
+  Proofs.QueueStep Proofs.QueueLease Proofs.QueueTrace Proofs.QueueEpochs Proofs.QueueMonSound.
 Import ListNotations.
 Open Scope Z_scope.
 
@@ -66,6 +66,14 @@ Proof. exact lease_epochs_dequeues. Qed.
 Theorem C03_lease_ids_fresh : forall fl c xs, NoDup (handed_out (model_trace fl c xs)).
 Proof. exact lease_ids_fresh. Qed.
 
+(** The executable monitor P_C03 that the check evaluates on implementation traces (pairwise-distinct,
+    fresh lease ids; every returned item was ready or expired, comes back leased with attempt+1 and a
+    future lease end; nothing but a dequeue creates or moves a lease) is implied by these theorems: it
+    holds on every model trace whose dequeue answers were accepted as valid choices. *)
+Theorem C03_monitor_holds_on_model : forall fl c xs,
+  Forall (fun e => ev_res e <> RBadOracle) (model_trace fl c xs) -> P_C03 fl c (model_trace fl c xs) = true.
+Proof. exact P_C03_holds_on_model. Qed.
+
 Example C03_witness :
   let e i := mkEnq (Some i) 1%N 1%N None None 5%N 0%N 0%N in
   let o0 := mkOracle [] [] [] [] in
@@ -81,3 +89,4 @@ Print Assumptions C03_never_returns_unavailable.
 Print Assumptions C03_lease_ends_only_legally.
 Print Assumptions C03_lease_ids_fresh.
 Print Assumptions C03_two_dequeues_separated_by_lease_end.
+Print Assumptions C03_monitor_holds_on_model.
